@@ -39,6 +39,7 @@ type concEvent struct {
 	G int    `json:"g"`
 	E string `json:"e"`
 	X string `json:"x"`
+	O string `json:"o"` // the evaluator owning the location ("" for the regexp cache)
 	C bool   `json:"c"`
 }
 
@@ -65,7 +66,13 @@ func (r *concRecorder) g() int {
 }
 
 func (r *concRecorder) add(e, x string, c bool) {
-	r.events = append(r.events, concEvent{G: r.g(), E: e, X: x, C: c})
+	owner := ""
+	if e == "lock" || e == "unlock" {
+		owner = x
+	} else if k := strings.Index(x, "."); k > 0 {
+		owner = x[:k]
+	}
+	r.events = append(r.events, concEvent{G: r.g(), E: e, X: x, O: owner, C: c})
 }
 
 // record one real concurrent execution of the scenario and return its events
@@ -274,7 +281,7 @@ func buildRaceWorker() (string, error) {
 }
 
 func checkC11(c *Check) {
-	c.rule = "one real concurrent execution (3 goroutines x 2 Run calls on a shared evaluator with objects incl. nil, a persistent counter, a regexp; 2 goroutines with evaluators of their own matching never-seen patterns) is recorded through the lock, cache and step hooks as per-goroutine event sequences (evaluator lock/unlock, cache lock/unlock/read/write, reads and writes of the counter, accesses to the machine state); TLC (Trace_Conc) keeps program order and lock semantics and explores ALL interleavings consistent with them, checking NoDataRace (two goroutines about to touch one location, one writing, no common lock), NoLostUpdate, MutualExclusion; the same scenario, larger (8+4 goroutines x 5 runs, repeated), runs in a worker built with the Go race detector: a race report, a lost update or a wrong verdict is a violation; distinct = recorded events / worker rounds"
+	c.rule = "one real concurrent execution (3 goroutines x 2 Run calls on a shared evaluator with objects incl. nil, a persistent counter, a regexp; 2 goroutines with evaluators of their own matching never-seen patterns) is recorded through the lock, cache and step hooks as per-goroutine event sequences (evaluator lock/unlock, cache lock/unlock/read/write, reads and writes of the counter, accesses to the machine state); TLC (Trace_Conc) keeps program order and lock semantics and explores ALL interleavings consistent with them, checking NoDataRace (two goroutines about to touch one location, one writing, no common lock), NoLostUpdate, MutualExclusion, Balanced, NoDeadlock and LockDiscipline (every access happens under the lock of its owner, locks are released in reverse order); the same module (EFConc) is first explored as a design (MC_Conc: G goroutines x R runs on a shared evaluator, M evaluators of their own, all interleavings; with the evaluator lock or the cache lock removed TLC must find the race, the lost update and the broken discipline); the same scenario, larger (8+4 goroutines x 5 runs, repeated), runs in a worker built with the Go race detector: a race report, a lost update or a wrong verdict is a violation; distinct = recorded events / worker rounds"
 	c.assumptions = []string{"the hooks sit at the accesses to shared state (the cache hooks are inside compileRegexp, the lock hooks next to the evaluator mutex, the step hook sees every instruction)", "Go's race detector observes the schedules that occur; TLC's exhaustiveness is over the recorded events"}
 	events, ok := recordConcurrent(c)
 	if !ok {
@@ -291,7 +298,10 @@ func checkC11(c *Check) {
 	if len(events) > 0 {
 		c.sample(events[:min(len(events), 24)])
 	}
-	cfg := "SPECIFICATION Spec\nINVARIANT NoDataRace\nINVARIANT NoLostUpdate\nINVARIANT MutualExclusion\nINVARIANT Balanced\nCHECK_DEADLOCK FALSE\n"
+	// the design first: G goroutines x R runs on a shared evaluator and M evaluators of their own, every interleaving;
+	// then the same with each lock switched off, which must fail - else the invariants say nothing
+	designConc(c)
+	cfg := "SPECIFICATION Spec\nCONSTANT Events <- Recorded\nINVARIANT NoDataRace\nINVARIANT NoLostUpdate\nINVARIANT MutualExclusion\nINVARIANT Balanced\nINVARIANT NoDeadlock\nINVARIANT LockDiscipline\nCHECK_DEADLOCK FALSE\n"
 	res, err := runTLC(tlcOpts{Module: "Trace_Conc", Cfg: cfg, Timeout: 20 * time.Minute, Extra: map[string]string{"conc.ndjson": sb.String()}})
 	if res != nil {
 		c.addTLC(res)
@@ -353,6 +363,64 @@ func checkC11(c *Check) {
 		// code did not show it under the race detector: not reproduced, hence not a verdict
 		c.fail("Trace_Conc: invariant " + tlcRace + " fails on the recorded events, but the race-detector runs did not reproduce it\n" + lastLines(res.Output, 40))
 	}
+}
+
+// designConc runs MC_Conc: the design with both locks (must hold on every interleaving), and with each lock
+// removed (TLC must find the race / the lost update: the guard against vacuous invariants)
+func designConc(c *Check) {
+	type conf struct {
+		g, r, m             int
+		evalLock, cacheLock bool
+		invs                []string
+		want                string // "" = must hold; else the invariant TLC must report
+	}
+	all := []string{"NoDataRace", "NoLostUpdate", "MutualExclusion", "Balanced", "NoDeadlock", "LockDiscipline"}
+	confs := []conf{
+		{2, 2, 1, true, true, all, ""},
+		{2, 1, 0, false, true, []string{"NoDataRace"}, "NoDataRace"},
+		{2, 1, 0, false, true, []string{"NoLostUpdate"}, "NoLostUpdate"},
+		{1, 1, 1, true, false, []string{"NoDataRace"}, "NoDataRace"},
+		{1, 1, 1, true, false, []string{"LockDiscipline"}, "LockDiscipline"},
+	}
+	if c.Tier == "thorough" {
+		confs = append(confs, conf{3, 2, 1, true, true, all[:5], ""}, conf{2, 3, 2, true, true, all[:5], ""}, conf{3, 2, 2, true, true, all[:5], ""},
+			conf{4, 2, 1, true, true, all[:5], ""}, conf{3, 3, 1, true, true, all[:5], ""}, conf{4, 2, 2, true, true, all[:5], ""}) // (the last: 11 million distinct states)
+	}
+	held := 0
+	for _, cf := range confs {
+		b := func(x bool) string {
+			if x {
+				return "TRUE"
+			}
+			return "FALSE"
+		}
+		cfg := fmt.Sprintf("SPECIFICATION Spec\nCONSTANTS G = %d\nR = %d\nM = %d\nEvalLock = %s\nCacheLock = %s\nEvents <- Designed\n", cf.g, cf.r, cf.m, b(cf.evalLock), b(cf.cacheLock))
+		for _, inv := range cf.invs {
+			cfg += "INVARIANT " + inv + "\n"
+		}
+		cfg += "CHECK_DEADLOCK FALSE\n"
+		res, err := runTLC(tlcOpts{Module: "MC_Conc", Cfg: cfg, Timeout: 30 * time.Minute})
+		if res != nil {
+			c.addTLC(res)
+		}
+		if err != nil {
+			c.fail("MC_Conc: " + err.Error())
+			continue
+		}
+		what := fmt.Sprintf("MC_Conc G=%d R=%d M=%d EvalLock=%v CacheLock=%v", cf.g, cf.r, cf.m, cf.evalLock, cf.cacheLock)
+		switch {
+		case cf.want == "" && res.Violation != "":
+			// the design itself is wrong, or the model of it: nothing to reproduce on the code from here - the
+			// recorded execution and the race detector below decide about the code
+			c.fail(what + ": invariant " + res.Violation + " fails on the design model\n" + lastLines(res.Output, 30))
+		case cf.want != "" && res.Violation != cf.want:
+			c.fail(what + ": expected TLC to report " + cf.want + " (the lock is what prevents it), got " + fmt.Sprintf("%q", res.Violation))
+		default:
+			held++
+		}
+		c.count("design|"+what+"|"+strings.Join(cf.invs, ","), true)
+	}
+	c.extra["design_configurations"] = held
 }
 
 func firstLines(s string, n int) string {
